@@ -1472,7 +1472,7 @@ func gen(seed uint64, tier string, o *hx.Out) {
 	steps := []struct {
 		name string
 		f    func()
-	}{{"item1", g.item1}, {"item2", g.item2}, {"item2b", g.item2b}, {"item3", func() { g.pmOn = true; g.item3(); g.pmOn = false }}, {"item4", g.item4}, {"item5", g.item5}, {"item6", g.item6}, {"item7", func() { g.pmOn = true; g.item7(); g.pmOn = false }}, {"R", g.rCases},
+	}{{"item1", g.item1}, {"item2", g.item2}, {"item2b", g.item2b}, {"item3", func() { g.pmOn = true; g.item3(); g.pmOn = false }}, {"item4", g.item4}, {"item5", g.item5}, {"item6", g.item6}, {"stall", g.stallCases}, {"item7", func() { g.pmOn = true; g.item7(); g.pmOn = false }}, {"R", g.rCases},
 		{"H", g.hCases}, {"V", g.vCases}, {"P", g.pCases}, {"PM", g.pmCases}, {"PW", g.pwCases}, {"R7", g.r7Cases}, {"PE", g.peCases}, {"R8", g.r8Cases}, {"R9", g.r9Cases}, {"R10", g.r10Cases}, {"R11", g.r11Cases}, {"R12", g.r12Cases}, {"VG", g.vgCases}}
 	for _, s := range steps {
 		t0, n0 := time.Now(), g.id
